@@ -1,0 +1,13 @@
+//go:build verif
+
+package coordinator
+
+import "net"
+
+// This file is compiled only with the "verif" build tag. It exposes a thin
+// wrapper over the unexported per-connection handler so that a simulator
+// living in another module can run it on its own goroutine (and observe a
+// panic there). The wrapper contains no logic of its own.
+
+// VerifHandleConn calls (*Service).handleConn.
+func (s *Service) VerifHandleConn(conn net.Conn) { s.handleConn(conn) }
